@@ -321,6 +321,23 @@ def run(ctx):
     worlds += stale_worlds(Gen(ctx.seed * 1000003 + 2002).r, 40 if ctx.tier == 'quick' else 600)
     worlds += hand_edited_json_worlds(Gen(ctx.seed * 1000003 + 2004).r)
     run_suite(ctx, 'match.mismatch', worlds, known=known)
+    if not ctx.facts.get('bools', {}).get('scannerUnbounded', True):
+        # the proof obligation source_scanner_unbounded is broken: search for a line behind which a changed value is
+        # no longer compared with what is stored (implementation only; the model has no limit)
+        from gen import Call
+        for size in (70000, 1 << 20, 17 << 20, 80 << 20):
+            w = World('c02-longline-%d' % size)
+            w.add(mode_line(False, ''))
+            w.add(cfg_line(1, 'snaps'))
+            for t, (name, val, exp) in enumerate([(b'TestLong', b'L' * size + b'\nnext', None), (b'TestB', b'b-old', None),
+                                                  (b'TestB', b'b-new', ('changed-value-behind-a-long-line-reported', exp_one_error_no_write))], 1):
+                w.add('begin %d %s' % (t, core.hx(name)))
+                w.add(Call('snap', val).op(1, t), exp)
+                w.add('end %d' % t)
+            before = len(ctx.violations)
+            run_suite(ctx, 'match.mismatch.long-line-%d' % size, [w], known=known, use_model=False)
+            if len(ctx.violations) > before:
+                break
     # colours on: the report must still be non-empty (no model: ANSI layout is not modelled)
     gc = Gen(ctx.seed * 1000003 + 22)
     nc = 80 if ctx.tier == 'quick' else 3000
